@@ -457,10 +457,10 @@ def known_match(case: dict, detail: dict) -> Optional[str]:
         return 'C13-F3'                                   # non-seekable text stream: can never be defused
     if case.get('refuse'):
         return None                                        # the two below concern clean documents only
-    if kind == 'raw':
-        return 'C13-F1'                                   # BufferedReader over a non-seekable raw stream
-    if kind == 'buffered' and not case['channel'].endswith('-opener'):
-        sk = [s for s in detail.get('seeks', []) if s['target'] == 0]
+    sk = [s for s in detail.get('seeks', []) if s['target'] == 0]
+    if kind == 'raw' and not sk:
+        return 'C13-F1'                                   # BufferedReader over a non-seekable raw stream, no DefusableReader
+    if kind in ('buffered', 'raw') and not case['channel'].endswith('-opener'):
         if sk and sk[-1]['pos_before'] > sk[-1]['buf']:
             return 'C13-F2'                               # scan went beyond the initial buffer
     return None
@@ -586,6 +586,12 @@ def explore(ctx: Ctx, drv: Optional[Driver], full: bool) -> None:
                 elif m['plan'] != impl['plan']:
                     ctx.mismatch('way of defusing chosen by open()', case, impl, m)
                 elif m['outcome'] != impl['outcome'] and impl['outcome'] != 'FOREIGN':
+                    if (impl['plan'] == 'wrap-raw' and not case['refuse'] and impl['outcome'] == 'oserror'
+                            and m['outcome'] == 'parsed' and case['role'] != 'included'):
+                        # the model describes the repaired code (notes/fixes/C13-raw-stream-defusable-reader.patch);
+                        # on the current tree this disagreement IS the known finding C13-F1 (already counted)
+                        ctx.count('correspondence:known-C13-F1')
+                        continue
                     ctx.mismatch('outcome of defuse + parse', case, impl, m)
             reader_scripts(ctx, drv)
     finally:
